@@ -107,6 +107,7 @@ type HarnessFile struct {
 	Stubs   [][2]string
 	Solver  string
 	ExpectBlock map[string]bool
+	ThoroughOnly map[string]bool
 }
 
 var dirRe = regexp.MustCompile(`(?m)^//vx:(\w[\w-]*)\s+(.*)$`)
@@ -117,7 +118,7 @@ func parseHarness(path string) (*HarnessFile, error) {
 	if err != nil {
 		return nil, err
 	}
-	h := &HarnessFile{Path: path, Src: src, Params: map[string]map[string]int{}, ExpectBlock: map[string]bool{}}
+	h := &HarnessFile{Path: path, Src: src, Params: map[string]map[string]int{}, ExpectBlock: map[string]bool{}, ThoroughOnly: map[string]bool{}}
 	if m := pkgRe.FindSubmatch(src); m != nil {
 		h.PkgName = string(m[1])
 	}
@@ -128,6 +129,11 @@ func parseHarness(path string) (*HarnessFile, error) {
 			h.PkgPath = val
 		case "entry":
 			h.Entries = append(h.Entries, strings.Fields(val)...)
+		case "entry-thorough":
+			for _, e := range strings.Fields(val) {
+				h.Entries = append(h.Entries, e)
+				h.ThoroughOnly[e] = true
+			}
 		case "param":
 			f := strings.Fields(val)
 			tier := f[0]
